@@ -100,33 +100,55 @@ type c01Compiled struct{ v1, v2 *neotest.Contract }
 
 var c01Contracts = map[util.Uint160]*c01Compiled{}
 
+var c01Base *c01Compiled // compiled once; the hash of a deployment depends on the sender only
+
 func c01Compile(t *c05TB, sender util.Uint160) (*c01Compiled, error) {
 	if c, ok := c01Contracts[sender]; ok {
 		return c, nil
 	}
-	var out c01Compiled
-	err := c05Try(func() {
-		mk := func(ver string) *neotest.Contract {
-			src := strings.ReplaceAll(c01SrcStore, "VERSION", ver)
-			ev := func(name string) compiler.HybridEvent {
-				return compiler.HybridEvent{Name: name, Parameters: []compiler.HybridParameter{
-					{Parameter: manifest.NewParameter("seed", smartcontract.IntegerType)},
-					{Parameter: manifest.NewParameter("n", smartcontract.IntegerType)}}}
+	if c01Base == nil {
+		var out c01Compiled
+		err := c05Try(func() {
+			mk := func(ver string) *neotest.Contract {
+				src := strings.ReplaceAll(c01SrcStore, "VERSION", ver)
+				ev := func(name string) compiler.HybridEvent {
+					return compiler.HybridEvent{Name: name, Parameters: []compiler.HybridParameter{
+						{Parameter: manifest.NewParameter("seed", smartcontract.IntegerType)},
+						{Parameter: manifest.NewParameter("n", smartcontract.IntegerType)}}}
+				}
+				perm := manifest.NewPermission(manifest.PermissionWildcard)
+				return neotest.CompileSource(t, sender, strings.NewReader(src), &compiler.Options{
+					Name: "verif-store", NoPermissionsCheck: true,
+					ContractEvents: []compiler.HybridEvent{ev("Filled"), ev("Swept")},
+					Permissions:    []manifest.Permission{*perm},
+				})
 			}
-			perm := manifest.NewPermission(manifest.PermissionWildcard)
-			return neotest.CompileSource(t, sender, strings.NewReader(src), &compiler.Options{
-				Name: "verif-store", NoPermissionsCheck: true,
-				ContractEvents: []compiler.HybridEvent{ev("Filled"), ev("Swept")},
-				Permissions:    []manifest.Permission{*perm},
-			})
+			c05InHarnessDir(func() { out.v1, out.v2 = mk("1"), mk("2") })
+		})
+		if err != nil {
+			return nil, err
 		}
-		c05InHarnessDir(func() { out.v1, out.v2 = mk("1"), mk("2") })
-	})
-	if err != nil {
-		return nil, err
+		c01Base = &out
 	}
-	c01Contracts[sender] = &out
-	return &out, nil
+	v1, v2 := *c01Base.v1, *c01Base.v2
+	v1.Hash = state.CreateContractHash(sender, v1.NEF.Checksum, v1.Manifest.Name)
+	v2.Hash = v1.Hash
+	c01Contracts[sender] = &c01Compiled{&v1, &v2}
+	return c01Contracts[sender], nil
+}
+
+// c01RegisterContracts gives the storage contract of every signing account a its fixed index 100 + a.
+func c01RegisterContracts(t *c05TB, u *c05Universe) error {
+	for a := 1; a <= 14; a++ {
+		cc, err := c01Compile(t, u.hashes[a])
+		if err != nil {
+			return err
+		}
+		u.mu.Lock()
+		u.idx[cc.v1.Hash] = 100 + a
+		u.mu.Unlock()
+	}
+	return nil
 }
 
 // c01BuildTx: the operations C01 adds to the C05 mix.  To = the account that deployed the contract addressed.
@@ -201,12 +223,12 @@ func (c *c05Chain) c01BuildTx(op c05Op) (*transaction.Transaction, error) {
 		}
 		return c.mkTx(h, "sweep", []any{int64(op.N)}, 30_0000_0000, nil, op.F)
 	case "role":
+		role, kids := c01RoleArgs(u, op)
 		var ks []any
-		for i := 0; i <= op.N%3; i++ {
-			ks = append(ks, u.keys[(op.K+i)%len(u.keys)].Bytes())
+		for _, k := range kids {
+			ks = append(ks, u.keys[k].Bytes())
 		}
-		roles := []noderoles.Role{noderoles.StateValidator, noderoles.Oracle, noderoles.P2PNotary, noderoles.NeoFSAlphabet}
-		return c.mkTx(c.desH, "designateAsRole", []any{int64(roles[int(op.A)%len(roles)]), ks}, c05FeeSimple, nil, c05AValidators, c05ACommittee)
+		return c.mkTx(c.desH, "designateAsRole", []any{int64(role), ks}, c05FeeSimple, nil, c05AValidators, c05ACommittee)
 	case "wl": // Policy.setWhitelistFeeContract(contract of To, "put", 2, fee A) (Faun)
 		h, _, err := target()
 		if err != nil {
@@ -231,6 +253,17 @@ func (c *c05Chain) c01BuildTx(op c05Op) (*transaction.Transaction, error) {
 		return c.mkTx(c.polH, "setMillisecondsPerBlock", []any{op.A}, c05FeeSimple, nil, c05AValidators, c05ACommittee)
 	}
 	return nil, nil
+}
+
+var c01Roles = []noderoles.Role{noderoles.StateValidator, noderoles.Oracle, noderoles.P2PNotary, noderoles.NeoFSAlphabet}
+
+// c01RoleArgs: role number and key ids of a "role" operation (A selects the role, K the first key, N%3+1 keys).
+func c01RoleArgs(u *c05Universe, op c05Op) (int, []int) {
+	var ks []int
+	for i := 0; i <= op.N%3; i++ {
+		ks = append(ks, (op.K+i)%len(u.keys))
+	}
+	return int(c01Roles[int(op.A)%len(c01Roles)]), ks
 }
 
 // c01ArgScript: build one unusual argument x on the stack, then System.Contract.Call h.take(x) — or
@@ -400,6 +433,10 @@ type c01Obs struct {
 	QNotary    string `json:"q_notary"`    // Notary balanceOf / expirationOf / getMaxNotValidBeforeDelta
 	QWhitelist string `json:"q_whitelist"` // Policy.getWhitelistFeeContracts (Faun): the cached whitelist with its fees
 	Whitelist  []int64 `json:"-"`          // (contract account, fee) pairs of the cached whitelist, for the model
+	QContracts string  `json:"q_contracts"` // Management.getContract of the storage contract of every signing account
+	QRoles     string  `json:"q_roles"`    // RoleManagement.getDesignatedByRole of every role at the tip and at historic heights
+	RoleQ      []c01RoleQ     `json:"-"`
+	ContractQ  []c01ContractQ `json:"-"`   // Management.getContract of the storage contract of every account
 	Enroll    string   `json:"enrollments"`
 	Natives   string   `json:"natives"`
 	Contracts string   `json:"contracts"`
@@ -407,6 +444,12 @@ type c01Obs struct {
 	Err       []string `json:"err,omitempty"`
 	items     map[string][]byte // full contract storage ("id:keyhex" -> value), for the diagnosis of a divergence
 }
+
+type c01RoleQ struct {
+	Role, Index int
+	Keys        []int
+}
+type c01ContractQ struct{ A, ID, Counter int }
 
 func c01Hash(parts ...[]byte) string {
 	h := sha256.New()
@@ -564,46 +607,124 @@ func c01Observe(bc *core.Blockchain, u *c05Universe, b *block.Block) *c01Obs {
 }
 
 // c01Queries runs read-only contract methods (they answer from the native caches) in one test invocation at the
-// tip and stores digests of the resulting stack by group.
+// tip and stores digests of the resulting stack by group, plus the decoded answers the model is compared with.
 func c01Queries(bc *core.Blockchain, u *c05Universe, o *c01Obs, bad func(string, ...any)) {
 	neoH, _ := bc.GetNativeContractScriptHash(nativenames.Neo)
 	polH, _ := bc.GetNativeContractScriptHash(nativenames.Policy)
 	notH, _ := bc.GetNativeContractScriptHash(nativenames.Notary)
+	desH, _ := bc.GetNativeContractScriptHash(nativenames.Designation)
+	mgmH, _ := bc.GetNativeContractScriptHash(nativenames.Management)
 	w := io.NewBufBinWriter()
-	var groups []int // group of the i-th call: 0 policy, 1 neo, 2 unclaimed, 3 accounts, 4 notary
-	call := func(g int, h util.Uint160, m string, args ...any) {
+	const (
+		gPolicy, gNeo, gUnclaimed, gAccounts, gNotary, gWhitelist, gRoles, gContracts = 0, 1, 2, 3, 4, 5, 6, 7
+	)
+	type qcall struct {
+		group  int
+		handle func(stackitem.Item)
+	}
+	var calls []qcall
+	call := func(g int, handle func(stackitem.Item), h util.Uint160, m string, args ...any) {
 		emit.AppCall(w.BinWriter, h, m, callflag.ReadOnly, args...)
-		groups = append(groups, g)
+		calls = append(calls, qcall{g, handle})
+	}
+	contracts := map[int]util.Uint160{}
+	u.mu.Lock()
+	for h, i := range u.idx {
+		if i > 100 && i <= 114 {
+			contracts[i] = h
+		}
+	}
+	u.mu.Unlock()
+	blockedQ := func(idx int) func(stackitem.Item) {
+		return func(it stackitem.Item) {
+			if b, err := it.TryBool(); err == nil && b {
+				o.Blocked = append(o.Blocked, idx)
+			}
+		}
 	}
 	for i := 0; i < c05AFixed; i++ {
-		call(0, polH, "isBlocked", u.hashes[i])
+		call(gPolicy, blockedQ(i), polH, "isBlocked", u.hashes[i])
 	}
-	nq := c05AFixed
-	call(0, polH, "getFeePerByte")
-	call(0, polH, "getExecFeeFactor")
-	call(0, polH, "getStoragePrice")
+	for a := 1; a <= 14; a++ {
+		call(gPolicy, blockedQ(100+a), polH, "isBlocked", contracts[100+a])
+	}
+	call(gPolicy, nil, polH, "getFeePerByte")
+	call(gPolicy, nil, polH, "getExecFeeFactor")
+	call(gPolicy, nil, polH, "getStoragePrice")
 	for _, a := range []int64{1, 0x11, 0x20, 0x21, 0x22} {
-		call(0, polH, "getAttributeFee", a)
+		call(gPolicy, nil, polH, "getAttributeFee", a)
 	}
-	call(1, neoH, "getCommittee")
-	call(1, neoH, "getNextBlockValidators")
-	call(1, neoH, "getCandidates")
-	call(1, neoH, "getGasPerBlock")
-	call(1, neoH, "getRegisterPrice")
+	call(gNeo, nil, neoH, "getCommittee")
+	call(gNeo, nil, neoH, "getNextBlockValidators")
+	call(gNeo, nil, neoH, "getCandidates")
+	call(gNeo, nil, neoH, "getGasPerBlock")
+	call(gNeo, nil, neoH, "getRegisterPrice")
 	for _, k := range u.keys {
-		call(1, neoH, "getCandidateVote", k.Bytes())
+		call(gNeo, nil, neoH, "getCandidateVote", k.Bytes())
 	}
 	for i := 0; i < c05AFixed; i++ {
-		call(2, neoH, "unclaimedGas", u.hashes[i], int64(bc.BlockHeight()+1))
-		call(3, neoH, "getAccountState", u.hashes[i])
-		call(4, notH, "balanceOf", u.hashes[i])
-		call(4, notH, "expirationOf", u.hashes[i])
+		call(gUnclaimed, nil, neoH, "unclaimedGas", u.hashes[i], int64(bc.BlockHeight()+1))
+		call(gAccounts, nil, neoH, "getAccountState", u.hashes[i])
+		call(gNotary, nil, notH, "balanceOf", u.hashes[i])
+		call(gNotary, nil, notH, "expirationOf", u.hashes[i])
 	}
-	call(4, notH, "getMaxNotValidBeforeDelta")
-	faun := bc.GetConfig().Hardforks[config.HFFaun.String()]
-	_, hasFaun := bc.GetConfig().Hardforks[config.HFFaun.String()]
+	call(gNotary, nil, notH, "getMaxNotValidBeforeDelta")
+	// designated nodes of every role at the tip (+1: effective from the next block) and at historic heights
+	h := int(bc.BlockHeight())
+	seenIdx := map[int]bool{}
+	for _, idx := range []int{h + 1, h, h - 1, h - 3, h - 7, 1} {
+		if idx < 0 || seenIdx[idx] {
+			continue
+		}
+		seenIdx[idx] = true
+		for _, r := range c01Roles {
+			role, index := int(r), idx
+			call(gRoles, func(it stackitem.Item) {
+				q := c01RoleQ{Role: role, Index: index}
+				if arr, ok := it.Value().([]stackitem.Item); ok {
+					for _, x := range arr {
+						kb, _ := x.TryBytes()
+						q.Keys = append(q.Keys, u.key(kb))
+					}
+				}
+				o.RoleQ = append(o.RoleQ, q)
+			}, desH, "getDesignatedByRole", int64(role), int64(index))
+		}
+	}
+	for a := 1; a <= 14; a++ {
+		acct := a
+		call(gContracts, func(it stackitem.Item) {
+			if f, ok := it.Value().([]stackitem.Item); ok && len(f) >= 2 {
+				id, _ := f[0].TryInteger()
+				cnt, _ := f[1].TryInteger()
+				if id != nil && cnt != nil {
+					o.ContractQ = append(o.ContractQ, c01ContractQ{acct, int(id.Int64()), int(cnt.Int64())})
+				}
+			}
+		}, mgmH, "getContract", contracts[100+a])
+	}
+	faun, hasFaun := bc.GetConfig().Hardforks[config.HFFaun.String()]
 	if hasFaun && faun <= bc.BlockHeight()+1 {
-		call(5, polH, "getWhitelistFeeContracts")
+		call(gWhitelist, func(it stackitem.Item) { // drain the iterator over the cached whitelist
+			iter, ok := it.Value().(interface {
+				Next() bool
+				Value() stackitem.Item
+			})
+			if !ok {
+				return
+			}
+			for iter.Next() {
+				v := iter.Value()
+				if f, ok := v.Value().([]stackitem.Item); ok && len(f) == 4 {
+					hb, _ := f[0].TryBytes()
+					hh, _ := util.Uint160DecodeBytesBE(hb)
+					fee, _ := f[3].TryInteger()
+					if fee != nil {
+						o.Whitelist = append(o.Whitelist, int64(c01DeployerOf(u, hh)), fee.Int64())
+					}
+				}
+			}
+		}, polH, "getWhitelistFeeContracts")
 	}
 	ic, err := bc.GetTestVM(trigger.Application, nil, nil)
 	if err != nil {
@@ -618,56 +739,37 @@ func c01Queries(bc *core.Blockchain, u *c05Universe, o *c01Obs, bad func(string,
 		return
 	}
 	items := ic.VM.Estack().ToArray()
-	if len(items) != len(groups) {
-		bad("read-only queries: %d answers for %d calls", len(items), len(groups))
+	if len(items) != len(calls) {
+		bad("read-only queries: %d answers for %d calls", len(items), len(calls))
 		return
 	}
-	parts := make([][][]byte, 6)
+	parts := make([][][]byte, 8)
 	for i, it := range items {
-		if groups[i] == 5 { // drain the iterator over the cached whitelist
-			if iter, ok := it.Value().(interface {
-				Next() bool
-				Value() stackitem.Item
-			}); ok {
-				for iter.Next() {
-					v := iter.Value()
-					j, _ := stackitem.ToJSONWithTypes(v)
-					parts[5] = append(parts[5], j)
-					if f, ok := v.Value().([]stackitem.Item); ok && len(f) == 4 {
-						hb, _ := f[0].TryBytes()
-						hh, _ := util.Uint160DecodeBytesBE(hb)
-						fee, _ := f[3].TryInteger()
-						if fee != nil {
-							o.Whitelist = append(o.Whitelist, int64(c01DeployerOf(u, hh)), fee.Int64())
-						}
-					}
-				}
-			}
+		if calls[i].handle != nil {
+			calls[i].handle(it)
+		}
+		if calls[i].group == gWhitelist {
 			continue
 		}
 		j, err := stackitem.ToJSONWithTypes(it)
 		if err != nil {
 			j = []byte(err.Error())
 		}
-		parts[groups[i]] = append(parts[groups[i]], j)
-		if i < nq {
-			if b, err := it.TryBool(); err == nil && b {
-				o.Blocked = append(o.Blocked, i)
-			}
-		}
+		parts[calls[i].group] = append(parts[calls[i].group], j)
 	}
+	wl, _ := json.Marshal(o.Whitelist)
 	o.QPolicy, o.QNeo, o.QUnclaimed, o.QAccounts, o.QNotary = c01Hash(parts[0]...), c01Hash(parts[1]...), c01Hash(parts[2]...), c01Hash(parts[3]...), c01Hash(parts[4]...)
-	o.QWhitelist = c01Hash(parts[5]...)
+	o.QWhitelist = c01Hash(wl)
+	o.QRoles = c01Hash(parts[gRoles]...)
+	o.QContracts = c01Hash(parts[gContracts]...)
 }
 
 // c01DeployerOf: the universe account whose storage contract has the given hash (-1 = none).
 func c01DeployerOf(u *c05Universe, h util.Uint160) int {
-	for a, cc := range c01Contracts {
-		if cc.v1.Hash == h {
-			if i, ok := u.idx[a]; ok {
-				return i
-			}
-		}
+	u.mu.Lock()
+	defer u.mu.Unlock()
+	if i, ok := u.idx[h]; ok && i > 100 && i <= 114 {
+		return i - 100
 	}
 	return -1
 }
@@ -990,7 +1092,7 @@ func c01RunReplica(p c01Proto, rp c01Replica, src *c05Chain, blocks []*block.Blo
 func c01RandomOp(g *c05Gen, deployed map[int]bool) c05Op {
 	r := g.r
 	a := pick(r, c05Signers)
-	mutable := func() int { // a contract that may be updated / destroyed: never the whitelist targets 13, 14
+	mutable := func() int { // a contract that may be destroyed: 13 and 14 are kept alive (most calls aim at them)
 		var l []int
 		for k := range deployed {
 			if k != 13 && k != 14 {
@@ -1055,11 +1157,11 @@ func c01RandomOp(g *c05Gen, deployed map[int]bool) c05Op {
 	case x < 96:
 		return c05Op{T: "csweep", F: a, To: anyDeployed(), N: r.intn(4)}
 	case x < 97:
-		return c05Op{T: "cupdate", F: a, To: mutable()}
+		return c05Op{T: "cupdate", F: a, To: anyDeployed()}
 	case x < 98:
 		return c05Op{T: "cdestroy", F: a, To: mutable()}
 	default:
-		return c05Op{T: pick(r, []string{"wl", "wl", "wlrm"}), To: pick(r, []int{13, 14}), A: int64(r.intn(3)) * int64(1+r.intn(2000000))}
+		return c05Op{T: pick(r, []string{"wl", "wl", "wlrm"}), To: anyDeployed(), A: int64(r.intn(3)) * int64(1+r.intn(2000000))}
 	}
 }
 
@@ -1155,6 +1257,33 @@ func c01Generate(r *rng, c *c05Chain, run *c05Runner, nblocks int) ([]c05Op, err
 					later = append(later, nil)
 				}
 				later = append(later, []c05Op{{T: "cput", F: pick(r, c05Signers), To: d, N: r.intn(4), K: r.intn(6), A: 9}})
+			case x >= 30 && x < 40:
+				// designations of several roles across blocks (each effective from the next block; a second designation of
+				// the same role in one block faults); answered at historic heights by every replica afterwards
+				ra, rb := r.intn(4), r.intn(4)
+				if err := emit(c05Op{T: "role", A: int64(ra), K: r.intn(14), N: r.intn(3)}, c05Op{T: "role", A: int64(rb), K: r.intn(14), N: r.intn(3)}); err != nil {
+					return g.ops, err
+				}
+				later = append(later, []c05Op{{T: "role", A: int64(ra), K: r.intn(14), N: r.intn(3)}})
+				for i := 0; i < r.intn(3); i++ {
+					later = append(later, nil)
+				}
+				later = append(later, []c05Op{{T: "role", A: int64(ra), K: r.intn(14), N: r.intn(3)}, {T: "role", A: int64(r.intn(4)), K: r.intn(14), N: r.intn(3)}})
+			case x >= 40 && x < 50:
+				// the life of a contract: deploy, update, whitelist its method, destroy (hash blocked, whitelist cleaned),
+				// then a second deployment and a whitelisting that must fail
+				d := pick(r, c05Signers[:12])
+				deployed[d] = true
+				if err := emit(c05Op{T: "deploy", F: d}); err != nil {
+					return g.ops, err
+				}
+				later = append(later, []c05Op{{T: "cupdate", F: pick(r, c05Signers), To: d}})
+				later = append(later, []c05Op{{T: "wl", To: d, A: int64(r.intn(5000))}, {T: "cput", F: pick(r, c05Signers), To: d, N: 1, K: 1, A: 3}})
+				if r.chance(50) {
+					later = append(later, []c05Op{{T: "cupdate", F: pick(r, c05Signers), To: d}})
+				}
+				later = append(later, []c05Op{{T: "cdestroy", F: pick(r, c05Signers), To: d}})
+				later = append(later, []c05Op{{T: "deploy", F: d}, {T: "wl", To: d, A: 5}})
 			case x < 20:
 				// a voted candidate loses its voters and unregisters (its record is dropped), registers again later and
 				// is voted again
